@@ -650,7 +650,7 @@ int verif_main(int argc, char **argv)
                 alarm(120);
                 case_reset();
                 bool sweep = c < b.sweep;
-                pr_seed(&G, sweep ? 0x5EEDF00DULL : seed, (uint64_t)c);
+                pr_seed(&G, sweep ? 0x5EEDF00DULL : seed + 0x1000003ULL * (uint64_t)QCAP, (uint64_t)c);
                 chk_run_case(seed, c, sweep);
                 canary_check("end of case");
                 ncases++;
